@@ -82,8 +82,10 @@ TEXT = {
              "to 64 calls, with unknown-id, duplicate and (WebSocket) in-flight-id notify frames injected. Every response carries the unique token of "
              "its request; an offline oracle checks own-response, batch alignment, id distinctness and subscriber-only notify delivery. verif-hooks "
              "probes inject seeded delays and the number of distinct probe-event interleavings observed is reported. The model-checked interleaving "
-             "clause of the quantifier is another technique and is not claimed.",
-        note="Interleavings are sampled, not enumerated; trusts the fake server and oracle in harness/src/c04.rs.",
+             "clause of the quantifier is another technique and is not claimed. Further families: caller-chosen ids re-registered inside the "
+             "reader's match/deliver window (probe gate), pushes in every subscriber state and with notify bytes other than 1, runs of up to 1000 "
+             "unmatched frames, batches cut by connection loss, ids around locally abandoned requests (stage ids). Found and fixed D8.",
+        note="Interleavings are sampled, not enumerated; trusts the fake server and oracle in harness/src/c04*.rs.",
         ref="DESIGN.md §4 C04"),
     "C07": dict(
         technique="differential runtime monitor across dispatch paths, enumeration of registration orders, independent RFC 6901 tokenizer; Miri",
@@ -151,7 +153,8 @@ TEXT = {
              "4 MiB quick / 32 MiB thorough), seeded read stalls with small socket buffers, configured write timeouts and calls aborted mid-send; after "
              "every interruption the peer drains and FURTHER traffic is issued. Oracle: the stream must be whole frames plus at most one strict "
              "prefix of one frame with nothing after it, every frame byte-equal to one submitted message (bodies are a function of token and "
-             "offset), sends that reported success are whole on the wire, each WebSocket message is exactly one frame. Found and fixed D3, D4, D5.",
+             "offset), sends that reported success are whole on the wire, each WebSocket message is exactly one frame and the WebSocket stream itself parses. "
+             "Stage proxy: the upstream byte stream of proxy_connection fed with messages that are not exactly one frame. Found and fixed D3, D4, D5.",
         note="WebSocket streams are observed as messages; client send buffers autotune (fault payloads sized 12-32 MiB for a 4 MiB tcp_wmem).",
         ref="DESIGN.md §4 C05"),
     "C15": dict(
@@ -192,7 +195,9 @@ TEXT = {
              "thorough). Timeout-vs-response races are forced in five orders with verif-hooks gates and verified from event indices; calling tasks "
              "are aborted at each probe point. Oracle: every in-flight and later call returns an error (or its own token when it legitimately won) "
              "within a 15 s heartbeat-gated window, pending table exactly empty, late responses delivered to nobody, the next call on a healthy "
-             "client gets its own token, the notify subscriber sees end-of-stream, no thread panics.",
+             "client gets its own token, the notify subscriber sees end-of-stream, no thread panics. Stalled-writer family: the fault arrives while "
+             "another task's large send is stalled on a peer that stopped reading and then lingers (found and fixed D9; one recorded known finding K1). "
+             "Batch form of the timeout windows with more requests than the worker pool.",
         note="Drain-before-shutdown style reorderings are caught probabilistically (repeated held-lock cells). Cancelling mid-write of a large body is C05's domain.",
         ref="DESIGN.md §4 C06"),
 }
